@@ -1,8 +1,8 @@
 #!/bin/sh
-# confirm every round-3 sub-agent change under /tmp/mut3/out that is not stored yet
-export ROUND=3
-for d in /tmp/mut3/out/C*; do id=$(basename $d); for m in m5 m6; do
+# confirm every round-3 sub-agent change under /tmp/mut4/out that is not stored yet
+export ROUND=4
+for d in /tmp/mut4/out/C*; do id=$(basename $d); for m in m7 m8; do
   [ -f $d/$m.diff ] && [ -f $d/${m}_demo_test.go ] || continue
   [ -d /verif/seeded/$id-$m ] && continue
-  echo "$id $m: $(/verif/tools/confirm2.sh $id $m /tmp/mut3/out 2>&1 | tail -1)"
+  echo "$id $m: $(/verif/tools/confirm2.sh $id $m /tmp/mut4/out 2>&1 | tail -1)"
 done; done
